@@ -614,6 +614,10 @@ func c06HeaderCase(c *Ctx) {
 }
 
 func c06Request(c *Ctx) {
+	withInline(func() { c06RequestIn(c) }, c.P.Func("lib", "Target.Request"))
+}
+
+func c06RequestIn(c *Ctx) {
 	const rule = "Target.Request passes the target's method and URL to http.NewRequest, a reader over the target's body exactly when it is non-empty, copies every header value slice into a fresh slice under the original key, and sets Host from a non-empty Host header"
 	fn := c.P.Func("lib", "Target.Request")
 	key := "request-construction:(*lib.Target).Request"
@@ -636,20 +640,55 @@ func c06Request(c *Ctx) {
 	if ok {
 		// body φ[nil, bytes.NewReader(t.Body)] under len(t.Body) != 0
 		okB := false
-		if phi, isPhi := args[2].(*ssa.Phi); isPhi {
-			for k, e := range phi.Edges {
-				if mi, isMI := e.(*ssa.MakeInterface); isMI {
-					if call, isCall := mi.X.(*ssa.Call); isCall && callName(&call.Call) == "bytes.NewReader" && describeVal(call.Call.Args[0]) == "recv.Body" {
-						for _, f := range factsAt(phi.Block().Preds[k]) {
-							if bo, isBo := f.Cond.(*ssa.BinOp); isBo && lenOf(bo.X, func(v ssa.Value) bool { return describeVal(v) == "recv.Body" }) {
-								if z, isZ := constInt(bo.Y); isZ && z == 0 && (bo.Op == token.NEQ && f.Val || bo.Op == token.GTR && f.Val || bo.Op == token.EQL && !f.Val) {
-									okB = true
-								}
+		// the candidate values of the body argument, each with the block whose facts guard it:
+		// the arms of a φ, or the returns of a single-site helper (t.bodyReader())
+		type bodyCase struct {
+			v   ssa.Value
+			blk *ssa.BasicBlock
+		}
+		var cases []bodyCase
+		switch b := args[2].(type) {
+		case *ssa.Phi:
+			for k, e := range b.Edges {
+				cases = append(cases, bodyCase{e, b.Block().Preds[k]})
+			}
+		case *ssa.Call:
+			if h := b.Call.StaticCallee(); h != nil && singleSite(c.P, h) == b {
+				eachInstr(h, func(i ssa.Instruction) {
+					if r, isR := i.(*ssa.Return); isR && len(r.Results) == 1 {
+						if phi, isPhi := r.Results[0].(*ssa.Phi); isPhi {
+							for k, e := range phi.Edges {
+								cases = append(cases, bodyCase{e, phi.Block().Preds[k]})
+							}
+						} else {
+							cases = append(cases, bodyCase{r.Results[0], r.Block()})
+						}
+					}
+				})
+			}
+		}
+		nNil := 0
+		for _, bc := range cases {
+			if isNilConst(bc.v) {
+				nNil++
+				continue
+			}
+			if mi, isMI := bc.v.(*ssa.MakeInterface); isMI {
+				if call, isCall := mi.X.(*ssa.Call); isCall && callName(&call.Call) == "bytes.NewReader" && describeVal(call.Call.Args[0]) == "recv.Body" {
+					for _, f := range factsAt(bc.blk) {
+						if bo, isBo := f.Cond.(*ssa.BinOp); isBo && lenOf(bo.X, func(v ssa.Value) bool { return describeVal(v) == "recv.Body" }) {
+							if z, isZ := constInt(bo.Y); isZ && z == 0 && (bo.Op == token.NEQ && f.Val || bo.Op == token.GTR && f.Val || bo.Op == token.EQL && !f.Val) {
+								okB = true
 							}
 						}
 					}
+					continue
 				}
 			}
+			nNil = -100 // some other reader
+		}
+		if nNil < 1 {
+			okB = false
 		}
 		if !okB {
 			ok, why = false, "the request body is not bytes.NewReader(t.Body) exactly when the body is non-empty (nil otherwise)"
@@ -658,7 +697,7 @@ func c06Request(c *Ctx) {
 	if ok {
 		// header copy: every value stored into the request's header map is a freshly allocated slice
 		okH, nUpd := true, 0
-		eachInstr(fn, func(i ssa.Instruction) {
+		eachInstrI(fn, func(i ssa.Instruction) {
 			if mu, isMU := i.(*ssa.MapUpdate); isMU && isNamedType(mu.Map.Type(), "net/http", "Header") {
 				nUpd++
 				if !isFreshSlice(mu.Value) {
@@ -672,7 +711,7 @@ func c06Request(c *Ctx) {
 	}
 	if ok {
 		okHost := false
-		eachInstr(fn, func(i ssa.Instruction) {
+		eachInstrI(fn, func(i ssa.Instruction) {
 			if st, isSt := i.(*ssa.Store); isSt {
 				if fa, isFA := st.Addr.(*ssa.FieldAddr); isFA && fieldName(fa.X.Type(), fa.Field) == "Host" && isNamedType(fa.X.Type(), "net/http", "Request") {
 					if call, isCall := st.Val.(*ssa.Call); isCall && callName(&call.Call) == "(net/http.Header).Get" {
